@@ -21,10 +21,12 @@ pub fn def() -> CheckDef {
                sanitised and the raw result agree; (d) raw results for different k agree point-wise. Non-trivial: result neither empty nor unit \
                and the formula has a state variable; distinct by (network, formula).",
         assumptions: &["point-wise comparison covers the enumerated colours (all, up to 2^10)", "sets are compared as BDDs: the wrapper equality of lib-param-bn also compares the (differently sorted) parameter-variable lists of SymbolicContext::new and as_canonical_context, which is outside this repository"],
-        cases: |t| if t == Tier::Quick { 6000 } else { 200_000 },
+        cases: |t| (if t == Tier::Quick { 6000 } else { 200_000 }) + super::big::count(t),
         needs: |t| {
             let m = if t == Tier::Quick { 1 } else { 40 };
-            vec![("distinct_nontrivial", 300 * m), ("need_0", 100 * m), ("need_1", 100 * m), ("need_2", 100 * m), ("need_3", 60 * m), ("graphs_built", 8000 * m)]
+            let big_min = super::big::count(t) / 2;
+            vec![
+                ("big_model_cases_completed", big_min),("distinct_nontrivial", 300 * m), ("need_0", 100 * m), ("need_1", 100 * m), ("need_2", 100 * m), ("need_3", 60 * m), ("graphs_built", 8000 * m)]
         },
         run,
         prelude: None,
@@ -32,7 +34,12 @@ pub fn def() -> CheckDef {
     }
 }
 
-fn run(rng: &mut Rng, _idx: u64, tier: Tier) -> CaseOut {
+fn run(rng: &mut Rng, idx: u64, tier: Tier) -> CaseOut {
+    let small: u64 = if tier == Tier::Quick { 6000 } else { 200_000 };
+    if idx >= small {
+        // bundled benchmark-size models (child process, see bigrun.rs / big.rs)
+        return super::big::run("C15", idx - small, rng, tier);
+    }
     let mut nopts = NetOpts::default();
     if tier == Tier::Thorough {
         nopts.max_vars = 5;
